@@ -9,6 +9,7 @@ under CPython (disagreement = machinery error). The int/bool operator universe o
 way on every paired sub-expression node.
 """
 import json
+import re
 from concurrent.futures import ProcessPoolExecutor
 
 from harness import compat  # noqa: F401
@@ -75,6 +76,9 @@ class G(Generic[T]):
 class IG(G[int]):
 	pass
 
+class IG2(IG):
+	pass
+
 class Cd:
 	n: int
 
@@ -100,7 +104,7 @@ class Ws:
 		return iter(self.ws)
 
 '''
-SIGNATURE = 'n: int, x: float, b: bool, s: str, xs: list[int], ys: list[str], d: dict[str, int], t: tuple[int, str], c: C, e: E, xss: list[list[int]], dl: dict[str, list[float]], cs: list[C], xa: Ints, rows: Rows, da: DS, xo: list[int] | None, co: C | None, lo: list[C] | None, xn: None | list[int], cn: None | C, ln: None | list[C], gi: G[int], gs: G[str], ig: IG, cd: Cd, wz: Ws, id: int, max: float, hash: str, iter: list[int], min: C'
+SIGNATURE = 'n: int, x: float, b: bool, s: str, xs: list[int], ys: list[str], d: dict[str, int], t: tuple[int, str], c: C, e: E, xss: list[list[int]], dl: dict[str, list[float]], cs: list[C], xa: Ints, rows: Rows, da: DS, xo: list[int] | None, co: C | None, lo: list[C] | None, xn: None | list[int], cn: None | C, ln: None | list[C], gi: G[int], gs: G[str], ig: IG, ig2: IG2, cd: Cd, wz: Ws, id: int, max: float, hash: str, iter: list[int], min: C'
 
 
 def describe(v) -> str:
@@ -122,7 +126,7 @@ def describe(v) -> str:
 		return f'dict<{describe(k)}, {describe(x)}>' if v else 'dict<?, ?>'
 	if isinstance(v, tuple):
 		return 'tuple<' + ', '.join(describe(x) for x in v) + '>'
-	if type(v).__name__ in ('G', 'IG'):
+	if type(v).__name__ in ('G', 'IG', 'IG2'):
 		# a generic instance is described by what it holds
 		return f'{type(v).__name__}<{describe(v.v)}>'
 	return type(v).__name__
@@ -132,7 +136,8 @@ def runtime_types(texts: list[str]) -> list[str]:
 	scope: dict = {}
 	exec(PRELUDE, scope)
 	C, E, G, IG, Cd, Ws = scope['C'], scope['E'], scope['G'], scope['IG'], scope['Cd'], scope['Ws']
-	env = {'n': 3, 'x': 1.5, 'b': True, 's': 'a,b', 'xs': [1, 2], 'ys': ['a', 'b'], 'd': {'a': 1}, 't': (1, 'z'), 'c': C(2), 'e': E.A, 'xss': [[1], [2]], 'dl': {'a': [1.5]}, 'cs': [C(1)], 'xa': [1, 2], 'rows': [[1], [2]], 'da': {'a': 1}, 'xo': [3], 'co': C(1), 'lo': [C(1)], 'xn': [4], 'cn': C(2), 'ln': [C(2)], 'gi': G(1), 'gs': G('s'), 'ig': IG(2), 'cd': Cd(2), 'wz': Ws(), 'id': 4, 'max': 2.5, 'hash': 'h', 'iter': [5], 'min': C(3)}
+	IG2 = scope['IG2']
+	env = {'n': 3, 'x': 1.5, 'b': True, 's': 'a,b', 'xs': [1, 2], 'ys': ['a', 'b'], 'd': {'a': 1}, 't': (1, 'z'), 'c': C(2), 'e': E.A, 'xss': [[1], [2]], 'dl': {'a': [1.5]}, 'cs': [C(1)], 'xa': [1, 2], 'rows': [[1], [2]], 'da': {'a': 1}, 'xo': [3], 'co': C(1), 'lo': [C(1)], 'xn': [4], 'cn': C(2), 'ln': [C(2)], 'gi': G(1), 'gs': G('s'), 'ig': IG(2), 'ig2': IG2(3), 'cd': Cd(2), 'wz': Ws(), 'id': 4, 'max': 2.5, 'hash': 'h', 'iter': [5], 'min': C(3)}
 	out = []
 	for text in texts:
 		try:
@@ -182,6 +187,10 @@ def _check(args) -> dict:
 
 
 def _kind(text: str) -> str:
+	# a method of the generic base called on an instance of a class two levels below the class that binds the type variable
+	# (known finding: the type variable is resolved to the receiver's class)
+	if re.search(r'\big2\.(get|all|grid)\(\)', text):
+		return 'generic-method-via-grandchild'
 	for marker, name in (('.items()', 'dict-comprehension'), (' for v in ', 'list-comprehension'), ('.keys()', 'dict-keys'), ('.values()', 'dict-values'), ('.get(', 'dict-get'), ('.split(', 'str-split'), ('.copy()', 'list-copy'), (' if b else ', 'ternary'), ("['a']", 'dict-index'), ('.p', 'property'), ('.m()', 'method'), ('.value', 'enum-value'), ('[0]', 'index'), ('[1]', 'index')):
 		if marker in text:
 			return name
